@@ -17,6 +17,11 @@ import Aegean.Model.C17
 import Aegean.Proofs.C17Sphere
 import Aegean.Proofs.C17Translate
 import Aegean.Proofs.C17Sexa
+import Aegean.Proofs.C17String
+
+-- the `_eq_hand` proofs deliberately end in tactics that only fire after a harmless rewrite of the source
+set_option linter.unusedTactic false
+set_option linter.unreachableTactic false
 
 namespace Aegean.Properties.C17
 open Gen.C17 Aegean.Model.C17 Aegean.C17 Real
@@ -41,20 +46,19 @@ theorem gcdFar_eq_hand (ra1 dec1 ra2 dec2 : ℝ) :
   try ring_nf
 
 theorem bear_eq_hand (ra1 dec1 ra2 dec2 : ℝ) : bear ra1 dec1 ra2 dec2 = bearHand ra1 dec1 ra2 dec2 := by
-  try simp only [bear, bearHand, R.real_sin, R.real_cos, R.real_ofNat, R.real_radians, R.real_degrees,
-    R.real_atan2]
+  try simp only [bear, bearHand, R.real_sin, R.real_cos, R.real_radians, R.real_degrees, R.real_atan2]
   try ring_nf
 
 theorem translateDec_eq_hand (ra dec r theta : ℝ) :
     translateDec ra dec r theta = translateDecHand ra dec r theta := by
-  try simp only [translateDec, translateDecHand, R.real_sin, R.real_cos, R.real_ofNat, R.real_radians,
-    R.real_degrees, R.real_asin]
+  try simp only [translateDec, translateDecHand, R.real_sin, R.real_cos, R.real_radians, R.real_degrees,
+    R.real_asin, R.real_ofNat, real_min', real_max']
   try ring_nf
 
 theorem translateRa_eq_hand (ra dec r theta : ℝ) :
     translateRa ra dec r theta = translateRaHand ra dec r theta := by
-  try simp only [translateRa, translateRaHand, translateDecHand, R.real_sin, R.real_cos, R.real_ofNat,
-    R.real_radians, R.real_degrees, R.real_asin, R.real_atan2]
+  try simp only [translateRa, translateRaHand, translateDecHand, R.real_sin, R.real_cos, R.real_radians,
+    R.real_degrees, R.real_asin, R.real_atan2, R.real_ofNat, real_min', real_max']
   try ring_nf
 
 /-! ### gcd is the angle between the unit vectors, for BOTH branches of the `np.where` -/
@@ -123,12 +127,12 @@ theorem bear_eq_tangent (ra1 dec1 ra2 dec2 : ℝ) :
 /-! ### translate -/
 
 /-- **translate_gcd**: the point returned by `translate (ra, dec) r θ` is at distance `r` from the
-    start, for every start point (poles included), every bearing and every `0 ≤ r ≤ 180`,
+    start, for every start point `−90 ≤ dec ≤ 90` (poles included), every bearing, every `0 ≤ r ≤ 180`,
     whichever branch `gcd` selects -/
-theorem translate_gcd (ra dec r theta g : ℝ) (h0 : 0 ≤ r) (h1 : r ≤ 180)
+theorem translate_gcd (ra dec r theta g : ℝ) (hd0 : -90 ≤ dec) (hd1 : dec ≤ 90) (h0 : 0 ≤ r) (h1 : r ≤ 180)
     (h : IsGcd ra dec (translateRa ra dec r theta) (translateDec ra dec r theta) g) : g = r := by
   rw [isGcd_iff, translateRa_eq_hand, translateDec_eq_hand] at h
-  rw [h]; exact sphDist_translate ra dec r theta h0 h1
+  rw [h]; exact sphDist_translate ra dec r theta hd0 hd1 h0 h1
 
 /-- **translate_bear**: away from the poles and for `0 < r < 180` the initial bearing from the start
     to the translated point is `θ` modulo 360 -/
@@ -139,12 +143,12 @@ theorem translate_bear (ra dec r theta : ℝ) (h0 : 0 < r) (h1 : r < 180) (hd : 
 
 /-! ### sexagesimal: every printed field is in range -/
 
-theorem dmsM_eq (n : Nat) : dmsM n = fldM n := by simp only [dmsM, fldM]
-theorem dmsD_eq (n : Nat) : dmsD n = fldHi n := by simp only [dmsD, fldHi]
-theorem dmsCs_eq (n : Nat) : dmsCs n = fldCs n := by simp only [dmsCs, fldCs]
-theorem hmsM_eq (n : Nat) : hmsM n = fldM n := by simp only [hmsM, fldM]
-theorem hmsH_eq (n : Nat) : hmsH n = fldHi n := by simp only [hmsH, fldHi]
-theorem hmsCs_eq (n : Nat) : hmsCs n = fldCs n := by simp only [hmsCs, fldCs]
+theorem dmsM_eq (n : Nat) : dmsM n = fldM n := by simp only [dmsM, fldM] <;> omega
+theorem dmsD_eq (n : Nat) : dmsD n = fldHi n := by simp only [dmsD, fldHi] <;> omega
+theorem dmsCs_eq (n : Nat) : dmsCs n = fldCs n := by simp only [dmsCs, fldCs] <;> omega
+theorem hmsM_eq (n : Nat) : hmsM n = fldM n := by simp only [hmsM, fldM] <;> omega
+theorem hmsH_eq (n : Nat) : hmsH n = fldHi n := by simp only [hmsH, fldHi] <;> omega
+theorem hmsCs_eq (n : Nat) : hmsCs n = fldCs n := by simp only [hmsCs, fldCs] <;> omega
 
 /-- dec2dms: minutes < 60, whole seconds < 60 (so "60.00" is never printed), decimals < 100; the
     fields recompose to `n` -/
@@ -201,11 +205,11 @@ theorem hms_roundtrip (k : Int) :
 
 /-- **half a unit of the last printed digit** (Dec): if `n` is `|x|·360000` rounded to nearest
     (any tie rule), the parsed value of the printed fields is within 0.005 arcsec of `|x|` -/
-theorem dms_half_unit (x : ℝ) (n : Nat) (h : IsRound (|x| * 360000) n) :
-    |dec2decPosHand (dmsD n : ℝ) (dmsM n : ℝ) ((dmsCs n : ℝ) / 100) - |x|| ≤ 1 / 720000 := by
+theorem dms_half_unit (x : ℝ) (n : Nat) (h : IsRound (abs x * 360000) n) :
+    abs (dec2decPosHand (dmsD n : ℝ) (dmsM n : ℝ) ((dmsCs n : ℝ) / 100) - abs x) ≤ 1 / 720000 := by
   rw [dmsD_eq, dmsM_eq, dmsCs_eq, pos_value]
-  have := half_unit |x| n 360000 (by norm_num) (by simpa using h)
-  simpa using (by norm_num at this ⊢; exact this)
+  have := half_unit (abs x) n 360000 (by norm_num) (by simpa using h)
+  norm_num at this ⊢; exact this
 
 /-- **half a unit of the last printed digit** (RA, modulo 360 deg): if `k` is `x·24000` rounded to
     nearest, the parsed value is within 0.005 s of time (1/48000 deg) of `x` up to whole turns -/
@@ -219,12 +223,56 @@ theorem hms_half_unit (x : ℝ) (k : Int) (h : IsRound (x * 24000) k) :
   have e : (k : ℝ) / 24000 - 360 * j + 360 * j - x = (k : ℝ) / 24000 - x := by ring
   rw [e]; norm_num at this ⊢; exact this
 
+/-! ### sexagesimal, at the level of the printed STRING: `dec2dec (dec2dms ·)` and `ra2dec (dec2hms ·)`
+
+The model of Python's `str.format` / `str.split` / `float` (Model.C17: `dmsString`, `hmsString`,
+`dec2dec`) is hand-written and tied to the code by exact string correspondence; what is proved here is
+that, for that model, parsing the formatted string returns the number that was formatted — for every
+count `n` (not for a sample of strings). -/
+
+/-- parse ∘ format = id on hundredths of an arcsecond, both signs, for every `n` below 100 deg -/
+theorem dms_string_roundtrip (sgn : Bool) (n : Nat) (h : n < 100 * 360000) :
+    dec2dec dec2decPosHand dec2decNeg (dmsString sgn (dmsD n) (dmsM n) (dmsCs n))
+      = .ok (if sgn then -((n : ℝ) / 360000) else (n : ℝ) / 360000) := by
+  have hd : dmsD n < 100 := by rw [dmsD_eq]; unfold fldHi; omega
+  have hm : dmsM n < 100 := by rw [dmsM_eq]; have := fldM_lt n; omega
+  have hc : dmsCs n < 10000 := by rw [dmsCs_eq]; have := fldCs_lt n; omega
+  unfold dec2dec dmsString
+  rw [String.toList_ofList, dec2decL_dmsChars _ _ sgn _ _ _ hd hm hc]
+  simp only [numVal_int, numVal_negInt, numVal_centi]
+  cases sgn
+  · simp only [Bool.false_eq_true, if_false]
+    rw [dmsD_eq, dmsM_eq, dmsCs_eq, pos_value]
+  · simp only [if_true]
+    rw [dec2decNeg_eq_hand, dmsD_eq, dmsM_eq, dmsCs_eq, neg_value]
+
+/-- `ra2dec (dec2hms ·)`: the string printed for any integer count `k` parses to `k/24000` degrees
+    modulo 360 -/
+theorem hms_string_roundtrip (k : Int) :
+    ∃ j : Int, (dec2dec dec2decPosHand dec2decNeg
+        (hmsString (hmsH (hmsWrap k)) (hmsM (hmsWrap k)) (hmsCs (hmsWrap k)))).map ra2decScale
+      = .ok ((k : ℝ) / 24000 - 360 * j) := by
+  obtain ⟨j, hj⟩ := hms_roundtrip k
+  refine ⟨j, ?_⟩
+  have hw := hmsWrap_lt k
+  have hh : hmsH (hmsWrap k) < 100 := by rw [hmsH_eq]; unfold fldHi; omega
+  have hm : hmsM (hmsWrap k) < 100 := by rw [hmsM_eq]; have := fldM_lt (hmsWrap k); omega
+  have hc : hmsCs (hmsWrap k) < 10000 := by rw [hmsCs_eq]; have := fldCs_lt (hmsWrap k); omega
+  unfold dec2dec hmsString
+  rw [String.toList_ofList, dec2decL_hmsChars _ _ _ _ _ hh hm hc]
+  simp only [numVal_int, numVal_centi, Except.map]
+  rw [hj]
+
 /-! ### Non-vacuity, and the negation witnesses for the pinned Float formatters -/
 
 example : dmsD 3960000 = 11 ∧ dmsM 3960000 = 0 ∧ dmsCs 3960000 = 0 := by decide
 example : dmsD 3959999 = 10 ∧ dmsM 3959999 = 59 ∧ dmsCs 3959999 = 5999 := by decide
 example : hmsWrap (-1) = 8639999 ∧ hmsH (hmsWrap 8640000) = 0 := by decide
 example : dmsString false (dmsD 3960000) (dmsM 3960000) (dmsCs 3960000) = "+11:00:00.00" := by decide +kernel
+example : dmsString true (dmsD 3959999) (dmsM 3959999) (dmsCs 3959999) = "-10:59:59.99" := by decide +kernel
+example : hmsString (hmsH (hmsWrap (-1))) (hmsM (hmsWrap (-1))) (hmsCs (hmsWrap (-1))) = "23:59:59.99" := by
+  decide +kernel
+example : tokensL "-00 01 23.456".toList = ["-00".toList, "01".toList, "23.456".toList] := by decide +kernel
 
 /-- the pinned `dec2dms` prints a seconds field of 60.00: `10.9999999 ↦ "+10:59:60.00"` -/
 theorem pinned_dms_prints_60 : pinnedDms 10.9999999 = (false, 10, 59, 6000) := by decide +kernel
